@@ -152,7 +152,7 @@ def generate(profile, prop, verif_seed, idx, tier):
 
 # ------------------------------------------------------------------------- minimisation
 
-def shrink(profile, cfg, ops, signature, tier, max_execs=1500, deadline_s=120):
+def shrink(profile, cfg, ops, signature, tier, max_execs=1500, deadline_s=40):
     """ddmin over the op list, then config fields back to default, then byte/number arguments,
     while the SAME violation signature persists."""
     t_end = time.time() + deadline_s
@@ -408,11 +408,13 @@ def check(prop, tier, verif_seed, jobs, nruns=None, quiet=False):
         else:
             new.append((sig, vs))
     nviol = 0
-    for sig, vs in new[:8]:
-        v = vs[0]
+    t_shrink_end = time.time() + 150
+    for sig, vs in new[:6]:
+        v = min(vs, key=lambda x: len(x["ops"]))
         cfg, ops = v["cfg"], v["ops"]
         try:
-            cfg, ops, nexec = shrink(profile, cfg, ops, sig, tier)
+            cfg, ops, nexec = shrink(profile, cfg, ops, sig, tier,
+                                     deadline_s=max(5, min(40, t_shrink_end - time.time())))
         except Exception:
             nexec = -1
         r = execute(profile, cfg, ops, None, tier)
@@ -439,7 +441,7 @@ def check(prop, tier, verif_seed, jobs, nruns=None, quiet=False):
             print("  minimised: %d ops (%d seen in %d runs; %d shrink executions)"
                   % (len(ops), len(vs), agg["runs"], nexec))
         print("VIOLATION property=%s replay=%s" % (prop, path))
-    nviol += max(0, len(new) - 8)
+    nviol += max(0, len(new) - 6)
     wall = time.time() - t0
     write_evidence(prop, tier, verif_seed, profile.level, agg, wall, profile, nviol, known_seen, extra)
     if not quiet:
